@@ -793,23 +793,6 @@ class SourceFinder(object):
                 )
                 continue
 
-            # allow amp to be 5% or (innerclip) sigma higher
-            # TODO: the 5% should depend on the beam sampling
-            # note: when innerclip is 400 this becomes rather stupid
-            if amp > 0:
-                amp_min, amp_max = (
-                    0.95 * min(outerclip * rmsimg[xo, yo], amp),
-                    amp * 1.05 + innerclip * rmsimg[xo, yo],
-                )
-            else:
-                amp_max, amp_min = (
-                    0.95 * max(-outerclip * rmsimg[xo, yo], amp),
-                    amp * 1.05 - innerclip * rmsimg[xo, yo],
-                )
-
-            if debug_on:
-                self.log.debug("a_min {0}, a_max {1}".format(amp_min, amp_max))
-
             a, b, pa = global_data.psfhelper.get_psf_pix2pix(
                 yo + offsets[0], xo + offsets[1]
             )
@@ -817,6 +800,26 @@ class SourceFinder(object):
                 self.log.debug(" Summit has invalid WCS/Beam - Skipping.")
                 continue
             pixbeam = Beam(a, b, pa)
+
+            # allow amp to be 5% or (innerclip) sigma higher than the brightest
+            # pixel, on top of the drop of the psf between the true peak and
+            # that pixel: at most half a pixel away on each axis (a pixel
+            # corner), which is a factor 2**(2/b**2) for a minor axis of b pix
+            # note: when innerclip is 400 this becomes rather stupid
+            sampling = 1.05 * 2.0 ** (2.0 / min(pixbeam.a, pixbeam.b) ** 2)
+            if amp > 0:
+                amp_min, amp_max = (
+                    0.95 * min(outerclip * rmsimg[xo, yo], amp),
+                    amp * sampling + innerclip * rmsimg[xo, yo],
+                )
+            else:
+                amp_max, amp_min = (
+                    0.95 * max(-outerclip * rmsimg[xo, yo], amp),
+                    amp * sampling - innerclip * rmsimg[xo, yo],
+                )
+
+            if debug_on:
+                self.log.debug("a_min {0}, a_max {1}".format(amp_min, amp_max))
 
             # set a square limit based on the size of the pixbeam
             xo_lim = 0.5 * np.hypot(pixbeam.a, pixbeam.b)
